@@ -22,17 +22,17 @@ type GG struct {
 }
 
 var (
-	ggNumbers = []string{"0", "1", "-1", "42", "10", "007", "-0", "2147483648", "9223372036854775807", "-9223372036854775808", "100"}
+	ggNumbers = []string{"0", "1", "-1", "42", "10", "007", "08", "0019", "-09", "010", "-0", "2147483648", "9223372036854775807", "-9223372036854775808", "100"}
 	ggHuge    = []string{"9223372036854775808", "18446744073709551616", "-9223372036854775809", "99999999999999999999999999999999"}
 	ggStrings = []string{"", "hello", "a b", `a\"b`, `\"`, `a\"`, `\"a\"`, " lead", "trail ", "k", "x y z", "//nc", "/* c */", "it's", "1/2", "$v", "@a"}
-	ggUnicode = []string{"é", "日本", "🙂", "añb", "ünï", "→x", "a🙂b"}
+	ggUnicode = []string{"é", "日本", "🙂", "añb", "ünï", "→x", "a🙂b", "a\u0085b", "l\u2028s", "p\u2029", "\u00a0", "\ufeffx"}
 	ggAssets  = []string{"USD", "EUR/2", "COIN", "A", "USD/", "BTC/8", "1INCH", "X9", "U/S/D"}
 	ggAccts   = []string{"a", "b", "world", "users:001", "a-b_c", "A:B:c", "0", "dest", "x_1:y-2"}
 	ggVars    = []string{"x", "acc", "a_b", "_u", "v1", "amount", "p", "x"}
 	ggRatios  = []string{"1/2", "0/1", "1 / 3", "2 /3", "1/ 4", "3/3", "10/100", "01/02", "1/010"}
 	ggPercent = []string{"50%", "12.5%", "0%", "100%", "007%", "0.10%", "33.333%", "1.0%"}
 	ggFns     = []string{"set_tx_meta", "set_account_meta", "meta", "balance", "overdraft", "foo", "a_b"}
-	ggTypes   = []string{"monetary", "account", "portion", "asset", "number", "string", "int", "foo_bar"}
+	ggTypes   = []string{"monetary", "account", "portion", "asset", "number", "string", "int", "foo_bar", "any"}
 )
 
 func (g *GG) pick(label string, xs []string) string { return Pick(g.T, label, xs) }
